@@ -33,13 +33,31 @@ def the_copy(tr):
 
 
 def window_filtered(t):
-    """index array restricted to [from_index, to_index):  x[(x < to_index) & (x >= from_index)]"""
+    """index array restricted to [from_index, to_index):  x[(x < to_index) & (x >= from_index)],
+    or from_index + (positions found inside the window slice ret[from_index:to_index, ...])"""
+    rest = t - FROM
+    ra = rest.single_atom()
+    if ra is not None and ra[0] == "sub" and ra[2] == const(0):
+        w = ra[1].single_atom()
+        if w is not None and w[0] == "call" and w[1] == "numpy.where" and w[2]:
+            subs = [x for x in T.walk(w[2][0]) if x[0] == "sub" and copy_root(x[1])]
+            if subs and all(_window_rows(x[2]) for x in subs):
+                return True
     a = t.single_atom()
     if a is None or a[0] != "sub":
         return False
     base, mask = a[1], a[2]
     want = T.mk_and([T.mk_cmp("<", base, TO), T.mk_cmp(">=", base, FROM)])
     return mask == want or q.pred_equiv(mask, want)
+
+
+def _window_rows(idx):
+    a = idx.single_atom()
+    if a is None:
+        return False
+    if a[0] == "tuple" and a[1]:
+        return a[1][0] == WIN
+    return idx == WIN
 
 
 def col_term(tr, name):
@@ -322,7 +340,35 @@ def effects(ctx):
     ctx.ob("FRM", site, "the window is overwritten with (to - from) rows drawn with replacement from that pool", ok, "", mu[0] if mu else None)
     # per-class weights: p_class / class size for the classes present in the window
     pe = [e for e in tr.mutations("_p_distribution") if e.how == "method:extend"]
-    ctx.anchor(site, "per-row probabilities collected for every class", len(pe) == 1, "")
+    if ctx.anchor(site, "per-row probabilities collected for every class", len(pe) == 1 and len(ext) == 1, ""):
+        idxs = ext[0].value.single_atom()[1][0]
+        size = q.sub(atom(("getattr", idxs, "shape")), 0)
+        pv = pe[0].value.single_atom()[1][0]
+        ones = [a_ for a_ in T.walk(pv) if a_[0] == "call" and a_[1] == "numpy.ones"]
+        okn = len(ones) == 1 and ones[0][2] and ones[0][2][0] == size
+        ctx.ob("FRM", site, "one probability per candidate row of the class (as many as rows of that class in the window)", okn, q.short(pv, 160), pe[0])
+        # the per-row probability of a class is its requested probability divided by the number of ITS rows in the window
+        okp = False
+        if okn:
+            p_ind = pv / atom(ones[0])
+            cls_atom = [a_ for a_ in T.walk(idxs) if a_[0] == "iter"]
+            for conds, leaf in q.ite_leaves(p_ind):
+                pass
+            # `(n and p / n) or 0`: a leaf that is itself falsy on its path is 0
+            leaves = [l for cs_, l in q.ite_leaves(p_ind) if l != const(0) and not any(c_ == T.mk_not(l) for c_ in cs_)]
+            okp = bool(leaves) and all(_class_prob(l) is not None and T.same(l * size, _class_prob(l)) for l in leaves)
+        ctx.ob("FRM", site, "per-row probability = requested class probability / number of that class's rows in the window", okp,
+               "the class size must be the size of the very index set that is added to the pool", pe[0])
+
+
+def _class_prob(l):
+    """the class_probabilities[cls] factor of a per-row probability term"""
+    subs = [a_ for a_ in l.atoms() if a_[0] == "sub"]
+    for m_, cf in l.num:
+        for a_, pw in m_:
+            if a_[0] == "sub" and (a_[2].single_atom() or ("",))[0] == "iter":
+                return atom(a_)
+    return None
 
 
 def _rooted_local(t, name):
